@@ -416,6 +416,12 @@ class Interp(object):
                     # metadata store on the result: record the branch
                     env.setdefault('__stores__', V('stores', items=[])).items.append(st)
                     continue
+                if isinstance(t, ast.Tuple) and all(isinstance(x_, ast.Name) for x_ in t.elts):
+                    v_ = self.val(st.value, env)
+                    if v_.kind == 'tuple' and len(v_.items) == len(t.elts):
+                        for x_, i_ in zip(t.elts, v_.items):
+                            env[x_.id] = i_
+                        continue
                 raise AnalysisError('KINDS: unrecognised assignment `%s`' % norm_stmt(st))
             if isinstance(st, ast.AugAssign) and isinstance(st.target, ast.Name):
                 env[st.target.id] = self.val(ast.BinOp(left=st.target, op=st.op, right=st.value), env)
